@@ -1937,7 +1937,13 @@ func (p *Parser) parseExpressionSuffix(left IExpr, prec, precLeft OpPrec) IExpr 
 				return nil
 			}
 			p.next()
-			left = &BinaryExpr{tt, left, p.parseExpression(OpAssign)}
+			// the right-hand side is an ordinary expression, also where the left-hand side may turn out to be a parameter
+			// pattern with this as its default value
+			prevAssumeArrowFunc := p.assumeArrowFunc
+			p.assumeArrowFunc = false
+			right := p.parseExpression(OpAssign)
+			p.assumeArrowFunc = prevAssumeArrowFunc && tt == EqToken
+			left = &BinaryExpr{tt, left, right}
 			precLeft = OpAssign
 		case LtToken, LtEqToken, GtToken, GtEqToken, InToken, InstanceofToken:
 			if OpCompare < prec || !p.in && tt == InToken {
